@@ -85,7 +85,6 @@ def config_candidates(info, sample, obj):
 
 
 def build(tier, rng):
-    import passlib.utils.handlers as uh
 
     groups = []
     infos, skipped = G.list_handlers()
@@ -178,13 +177,14 @@ def build(tier, rng):
             if hasattr(h, "genhash") and not disabled:
                 o = outcome(h.genhash, sm.secret, s, **info.ctx())
                 g.check(o == ("ok", s), f"genhash:{name}{sub}", "genhash(secret, hash) != hash", {**w, "outcome": repr(o)})
+    g._elapsed = time.time() - g.t0
     groups.append(g)
 
     # ------------------------------------------------------------------------------------------------
     g = Group(
         "canonical-forms",
         "StaticHandler._norm_hash / bcrypt padding repair",
-        "hex-digest formats: upper/lower/swapped/half-half case of the hex run; bcrypt family: every value of the padding bits of the 22nd salt character and of the last digest character: if accepted, renders to the canonical string (bit arithmetic oracle), idempotent, verifies the same passwords",
+        "hex-digest formats: upper/lower/swapped/half-half case of the hex run; explicit spelling of elided default rounds (sha-crypt rounds=5000, dlitz $190$) and upper-case hex rounds (cta/dlitz); bcrypt family: every value of the padding bits of the 22nd salt character and of the last digest character: if accepted, renders to the canonical string (bit arithmetic oracle), idempotent, verifies the same passwords",
     )
     canon = {"hexcase_accepted": 0, "hexcase_refused": 0, "padding_accepted": 0, "padding_refused": 0}
     for info in infos:
@@ -231,6 +231,36 @@ def build(tier, rng):
                         if o[0] == "exc" and o[3]:
                             continue
                         g.check(o == ("ok", (True, False)), f"padding-verify:{name}:{which}", "padding-bit variant verifies differently from the canonical string", {**w, "outcome": repr(o)})
+        # explicit spelling of an elidable default (sha-crypt rounds=5000, dlitz hex 190 = 400) and upper-case hex rounds
+        if name in G.IMPLICIT_ROUNDS or name in ("cta_pbkdf2_sha1", "dlitz_pbkdf2_sha1"):
+            for sm in samples_by[name]:
+                s = sm.hash
+                inner = info.unwrap(s)
+                variants = []
+                dflt = G.IMPLICIT_ROUNDS.get(name)
+                if sm.settings.get("rounds") == dflt and dflt:
+                    if name.endswith(("sha256_crypt", "sha512_crypt")):
+                        variants.append(("explicit-default", info.wrap(inner[:3] + f"rounds={dflt}$" + inner[3:]), True))
+                    elif name == "dlitz_pbkdf2_sha1":
+                        variants.append(("explicit-default", s.replace("$p5k2$$", "$p5k2$%x$" % dflt, 1), False))
+                if "p5k2" in name or name in ("cta_pbkdf2_sha1", "dlitz_pbkdf2_sha1"):
+                    rs = inner.split("$")[2]
+                    if rs != rs.upper():
+                        variants.append(("upper-hex-rounds", s.replace(f"$p5k2${rs}$", f"$p5k2${rs.upper()}$", 1), False))
+                for vk, v, keeps in variants:
+                    w = {**sm.witness(), "variant": v, "kind": vk}
+                    g.case((name, vk, v))
+                    o = outcome(lambda: info.wrap(info.parse(v).to_string()))
+                    if o[0] == "exc" and o[3]:
+                        canon[vk + "_refused"] = canon.get(vk + "_refused", 0) + 1
+                        continue
+                    canon[vk + "_accepted"] = canon.get(vk + "_accepted", 0) + 1
+                    g.check(o[0] == "ok" and o[1] in ((v, s) if keeps else (s,)), f"{vk}-render:{name}", "accepted alternative spelling renders to neither itself nor the canonical string", {**w, "outcome": repr(o)})
+                    po = outcome(info.parse, v)
+                    g.check(po[0] == "ok" and po[1].rounds == sm.settings["rounds"] and po[1].salt == sm.settings["salt"], f"{vk}-attrs:{name}", "alternative spelling parses to different settings", {**w, "outcome": repr(po)})
+                    o = outcome(verify_both, info, sm.secret, v)
+                    g.check(o == ("ok", (True, False)), f"{vk}-verify:{name}", "alternative spelling verifies differently from the canonical string", {**w, "outcome": repr(o)})
+    g._elapsed = time.time() - g.t0
     groups.append(g)
 
     # ------------------------------------------------------------------------------------------------
@@ -284,6 +314,7 @@ def build(tier, rng):
                     g.check(o == ("ok", sm.hash), f"config-genhash:{name}{sub}", "genhash(secret, config) != hash made with the same settings", {**w, "outcome": repr(o)})
                     ob = outcome(info.h.genhash, sm.secret, cfg.encode("ascii"), **info.ctx())
                     g.check(ob == o, f"config-genhash-bytes:{name}", "bytes config gives a different result", {**w, "str": repr(o), "bytes": repr(ob)})
+    g._elapsed = time.time() - g.t0
     groups.append(g)
 
     # ------------------------------------------------------------------------------------------------
@@ -324,10 +355,13 @@ def build(tier, rng):
             g.case((name, "outer", outer))
             o = outcome(lambda: (info.h.identify(outer), info.h.verify(wsm.secret, outer, **ctx), info.h.verify(G.WRONG, outer, **ctx)))
             g.check(o == ("ok", (True, True, False)), f"wrap-outer:{name}", "re-prefixed hash of the wrapped hasher is not accepted by the wrapper", {"hasher": name, "hash": outer, "secret": wsm.secret, "outcome": repr(o)})
+    g._elapsed = time.time() - g.t0
     groups.append(g)
 
-    groups.append(libpass_inspect_group(tier, rng, samples_by, skipped))
-    groups.append(phc_group(tier, rng, samples_by, skipped))
+    for fn in (libpass_inspect_group, phc_group):
+        g = fn(tier, rng, samples_by, skipped)
+        g._elapsed = time.time() - g.t0
+        groups.append(g)
     host = {"generation_seconds": round(t_gen, 2), "generated_hashes": sum(len(v) for v in samples_by.values()), "config_forms_accepted": sorted(f"{a}:{b}" for a, b in accepted_cfg), "canonical_forms": canon}
     # refusals by the hasher (e.g. bcrypt $2x$) are part of the skipped list, compressed
     seen = set()
@@ -336,6 +370,9 @@ def build(tier, rng):
         if k not in seen:
             seen.add(k)
             skipped.append(n)
+    now = time.time()
+    for g in groups:
+        g.t0 = now - g._elapsed  # Group.out() reports now - t0: the time spent in this group alone
     return groups, skipped, host
 
 
